@@ -13,8 +13,8 @@ ASSUMPTIONS = [
     'operand\'s format under the operand\'s modes, with "best" it is represented exactly (default configuration)',
     'the governing configuration is the first operand\'s (the converted constant\'s for reflected operators), or out\'s / out_like\'s when given; '
     'operands are given different modes so that using the wrong one is visible',
-    'the result format is only asserted where the policy determines it unambiguously (out, out_like, same/largest/smallest with equal signedness); '
-    'in every case the stored code must equal the exact result quantised into the format the result reports',
+    'the result format is asserted for out, out_like and the policies same/largest/smallest (integer and fraction lengths per policy, signed as soon '
+    'as one operand is signed); in every case the stored code must equal the exact result quantised into the format the result reports',
 ]
 OPS = ('add', 'sub', 'mul')
 _PY = {'add': lambda a, b: a + b, 'sub': lambda a, b: a - b, 'mul': lambda a, b: a * b}
@@ -166,11 +166,14 @@ def post(cfg, inp, ob):
             if cfg['target'] is not None:
                 out.append((method + ':target_format', z['fmt'] == cfg['t']))
                 out.append((method + ':identity', z['is_out'] is True))
-            elif sx == sy:
+            else:
+                # integer and fraction lengths follow the policy; the result is signed as soon as one operand is (so with operands of
+                # different signedness 'largest' still holds the integer part of the unsigned operand next to the sign bit)
                 ix, iy = nx - fx - int(sx), ny - fy - int(sy)
+                sz = sx or sy
                 want = {'same': (ix, fx), 'largest': (max(ix, iy), max(fx, fy)), 'smallest': (min(ix, iy), min(fx, fy))}.get(cfg['sizing'])
                 if want is not None:
-                    out.append((method + ':policy_format', z['fmt'] == [sx, int(sx) + want[0] + want[1], want[1]]))
+                    out.append((method + ':policy_format', z['fmt'] == [sz, int(sz) + want[0] + want[1], want[1]]))
         out.append(('raw_and_repr_agree', SP.AND(ob['raw']['fmt'] == ob['repr']['fmt'],
                                                  T.icmp(O.cells(ob['raw']['val'])[0], O.cells(ob['repr']['val'])[0], '=='))))
         return out
